@@ -54,6 +54,14 @@ def generate(rng, tier, index):
     exact = bool(rng.uniform() < 0.6)
     comps = specgen.rand_components(rng)
     wl = [float(rng.uniform(6, 14)) * specgen.SPACING for _ in range(int(rng.integers(1, 3)))]
+    # half of the scenes: the phasor detectors of the volume group share a temporal apodization window
+    win = None
+    if rng.uniform() < 0.5:
+        if rng.uniform() < 0.5:
+            win = {"kind": "gaussian", "center_time_dt": float(rng.uniform(0.2, 0.8) * T), "sigma_time_dt": float(rng.uniform(0.3, 0.8) * T)}
+        else:
+            a0 = float(rng.uniform(0.0, 0.2) * T)
+            win = {"kind": "tukey", "start_time_dt": a0, "end_time_dt": float(a0 + rng.uniform(0.7, 1.0) * T), "alpha": float(rng.uniform(0.1, 0.9))}
     dets, groups = [], []
 
     def add(d):
@@ -61,6 +69,8 @@ def generate(rng, tier, index):
         d["exact"] = exact
         if sw:
             d["switch"] = sw
+        if win and d["kind"] == "phasor":
+            d["window"] = win
         dets.append(d)
 
     box = specgen.rand_box(rng, shape, min_size=1)
@@ -91,6 +101,23 @@ def generate(rng, tier, index):
             fb[a] = [lo, lo + 1]
             add({"kind": "poynting", "name": f"c_face_{a}_{side}", "box": fb, "direction": "+", "reduce": True, "fixed_propagation_axis": a})
     groups.append("closed")
+    # a second closed surface whose active axes are not a prefix of (x, y, z): explicit subset, or a box one cell thin along x or y
+    c2 = specgen.rand_box(rng, shape, min_size=2)
+    axes2 = None
+    if rng.uniform() < 0.5:
+        axes2 = [list(x) for x in ([1, 2], [0, 2], [2], [1], [0, 1])][int(rng.integers(0, 5))]
+    else:
+        thin = int(rng.integers(0, 2))
+        p0 = int(rng.integers(0, shape[thin]))
+        c2[thin] = [p0, p0 + 1]
+    add({"kind": "closed", "name": "c2_out", "box": c2, "orientation": "outward", **({"axes": axes2} if axes2 else {})})
+    act2 = axes2 if axes2 else [a for a in range(3) if c2[a][1] - c2[a][0] > 1]
+    for a in act2:
+        for side, lo in (("min", c2[a][0]), ("max", c2[a][1] - 1)):
+            fb = [list(b) for b in c2]
+            fb[a] = [lo, lo + 1]
+            add({"kind": "poynting", "name": f"c2_face_{a}_{side}", "box": fb, "direction": "+", "reduce": True, "fixed_propagation_axis": a})
+    spec["closed2_axes"] = act2
     spec["detectors"] = dets
     spec["plane_axis"] = pax
     spec["groups"] = groups
@@ -224,7 +251,15 @@ def execute(spec):
         sc_ = float(sum(np.abs(D[f"c_face_{a}_{s}/poynting_flux"][:, 0]) for a in active for s in ("min", "max")).max())
         check("closed_surface_vs_faces", cout, faces_sum, sc_)
         check("inward_negates_outward", D["c_in/poynting_flux"][:, 0], -cout, sc_)
+    if "c2_out/poynting_flux" in D and D["c2_out/poynting_flux"].shape[0] and spec.get("closed2_axes"):
+        act2 = spec["closed2_axes"]
+        c2out = D["c2_out/poynting_flux"][:, 0]
+        fs2 = sum(D[f"c2_face_{a}_max/poynting_flux"][:, 0] - D[f"c2_face_{a}_min/poynting_flux"][:, 0] for a in act2)
+        sc2 = float(sum(np.abs(D[f"c2_face_{a}_{s_}/poynting_flux"][:, 0]) for a in act2 for s_ in ("min", "max")).max())
+        check("closed_surface_subset_of_axes_vs_faces", c2out, fs2, sc2)
+        stats["probe_closed_axes_" + "".join(str(a) for a in act2)] = 1
     stats["probe_nonuniform"] = int(spec["grid"]["kind"] == "rect")
+    stats["probe_windowed_phasors"] = int(any(d.get("window") for d in spec["detectors"]))
     stats["probe_exact"] = int(bool(spec["detectors"][0]["exact"]))
     sig = specgen.scene_signature({**spec, "detectors": spec["detectors"][:3]}, spec["groups"], spec["plane_axis"])
     digest = dr.digest_arrays(D) + ":" + ",".join(f"{k}={dr.sig3(v)}" for k, v in sorted(resid.items())) + f":v{len(viol)}"
